@@ -99,6 +99,7 @@ pub fn sub_outcome(c: &SubCase) -> Outcome {
                 peers.push(PeerRt { link: l, attach: a, broken: false, join_overlapped_call: false, joined: false, stalled: false, identity, xpub: false });
             }
             let mut replaced: Vec<Link> = vec![];
+            let mut call_errors: Vec<String> = vec![];
             if sim.settle().await.is_err() {
                 fail!(f, "C13/spin", "setup");
                 return (f, classes);
@@ -119,6 +120,12 @@ pub fn sub_outcome(c: &SubCase) -> Outcome {
                     }
                     if let Some(a) = call {
                         if sim.done(a) {
+                            // a call may only fail when a connection's writes fail
+                            if let Some(e) = sim.out(a).and_then(|o| o.err_text().map(|s| s.to_string())) {
+                                if !peers.iter().any(|p| p.broken) && replaced.is_empty() {
+                                    call_errors.push(e);
+                                }
+                            }
                             call = None;
                         }
                     }
@@ -268,6 +275,9 @@ pub fn sub_outcome(c: &SubCase) -> Outcome {
                 classes.push("repeated-topic".into());
             }
             // ---- oracle
+            if let Some(e) = call_errors.first() {
+                fail!(f, "C13/call-fails-without-a-failing-connection", "{} subscribe/unsubscribe call(s) returned an error although every connection accepts writes: {}", call_errors.len(), e);
+            }
             let mut views: Vec<(usize, BTreeMap<Vec<u8>, i64>)> = vec![];
             for (j, p) in peers.iter().enumerate() {
                 if p.broken {
